@@ -83,7 +83,17 @@ def run(ctx, crate):
         obs.append(Ob("R18.inventory", b.path, "%s %s" % (c, p), True, site=s.where, nontrivial=(c != "pure")))
     # exactly one write: fs::write(literal "solstat_report.md", ..)
     good = []
+    def const_path(t):
+        # the literal itself, possibly wrapped by pure path/string conversions
+        while t[0] == "call" and t[1] in ("std::path::Path::new", "std::path::PathBuf::from", "std::convert::AsRef::as_ref", "std::ffi::OsStr::new") and len(t[2]) == 1:
+            t = t[2][0]
+        if t[0] == "obj":
+            t = t[2]
+        return t
+
     for (b, s, p) in writes:
+        if s.args:
+            s._args = [const_path(s.args[0])] + list(s.args[1:])
         ok = p == "std::fs::write" and s.args and s.args[0] == ("const", "str", "solstat_report.md")
         if ok:
             good.append((b, s))
